@@ -18,6 +18,7 @@ package ucon
 
 import (
 	"crypto/ecdsa"
+	"errors"
 	"fmt"
 	"math/big"
 
@@ -28,6 +29,10 @@ import (
 	"github.com/youchainhq/go-youchain/logging"
 	"github.com/youchainhq/go-youchain/params"
 )
+
+// errStaleSortition is returned for a vote of an older round or round index whose
+// sortition proof can not be verified. Such a vote is ignored.
+var errStaleSortition = errors.New("stale vote with unverifiable sortition")
 
 type VerifyPriorityFn func(pubkey *ecdsa.PublicKey, data *ConsensusCommon) error
 
@@ -197,7 +202,8 @@ func (s *Server) verifySortition(pubKey *ecdsa.PublicKey, data *SortitionData, l
 	isValid, err := VrfVerifySortition(pk, lookBackSeed, data.RoundIndex, data.Step, data.Proof, data.Votes, threshold, stake, totalStake)
 	if err != nil || !isValid {
 		if data.Round.Cmp(s.currentRound) < 0 || data.RoundIndex < s.roundIndex {
-			return nil
+			// a stale vote is not worth a penalty, but it must not be counted either
+			return errStaleSortition
 		}
 		logging.Error("=======verify sortition failed.", "Round", data.Round, "RoundIndex", data.RoundIndex,
 			"step", data.Step, "validatorTh", threshold,
